@@ -9,6 +9,7 @@ CONSTANTS
   Scenario = "complex"
   Size = "s"
   Prelude = 0
+  Reads = {}
   DevShift = FALSE
 CONSTRAINT Bounded
 VIEW View
